@@ -25,7 +25,7 @@ var propTable = map[string]*propSpec{
 	},
 	"C17": {
 		ID:          "C17",
-		Rules:       []string{"R-PACK"},
+		Rules:       []string{"R-PACK", "R-QUOTE"},
 		Explanation: "Decides the sibling-agreement part of 'pack/unpack/packsize round-trip and reject malformed formats': the three format interpreters handle the same option characters, agree option by option on alignment, size, default size and (pack vs unpack) the Go type put on the wire, and their align() methods raise the same errors.",
 		NotDecided:  "round-trip equality for variable-width integers (sign extension, truncation, 9..16-byte fields), %q, tostring/tonumber and printf-compatibility of string.format: value-level. The hostile length prefix of unpack's 's' option is decided under C04/C06 (R-ALLOC).",
 		Assumptions: []string{"an option's behaviour is characterised by its first align/write/read/inc call and smallOptSize default; helper bodies (packInt, readVarInt, ...) are not compared"},
